@@ -688,3 +688,150 @@ def r_init(P, chk):
                           "(%d such reads): the value is indeterminate heap content" % (rec, fld, f.name, g.name, len(badreads)),
                           {"reads": ["%s %s" % (a.where(b), a.name) for a, b in badreads[:8]]})
     chk.analysed[rid] = {"constructors": ["%s:%s(%s)" % (f.base, f.name, rec) for f, _, rec in ctors]}
+
+
+# ---------------------------------------------------------------------------
+# R-STALE: pointers into a growable buffer are re-derived after the buffer may have moved
+
+def growable_fields(P):
+    """(record, field) pairs that are assigned the result of realloc() somewhere (directly or via a temporary)."""
+    out = set()
+    for f in P.all_funcs:
+        if not P.first_party(f):
+            continue
+        temps = set()
+        for x in f.walk():
+            rhs = lhs = None
+            if x["k"] == "BinaryOperator" and x["op"] == "=":
+                lhs, rhs = strip(x["c"][0]), strip(x["c"][1])
+            elif x["k"] == "VarDecl" and x.get("c") and x["c"][0] is not None:
+                rhs = strip(x["c"][0])
+                if rhs is not None and rhs["k"] == "CallExpr" and rhs.get("callee") == "realloc":
+                    temps.add(x["n"])
+                continue
+            if lhs is None or rhs is None:
+                continue
+            is_re = rhs["k"] == "CallExpr" and rhs.get("callee") == "realloc"
+            if is_re and lhs["k"] == "DeclRefExpr":
+                temps.add(lhs["n"])
+            if lhs["k"] == "MemberExpr" and lhs.get("rec") and (is_re or (rhs["k"] == "DeclRefExpr" and rhs["n"] in temps)):
+                out.add((lhs["rec"], lhs["n"]))
+    return out
+
+
+def r_stale(P, chk):
+    rid = "R-STALE"
+    chk.rule(rid, "a local pointer derived from a realloc-grown buffer (X->F, &X->F[i], X->F + i) is not dereferenced after a call "
+                  "that may grow that buffer of the same object, unless it is re-derived first")
+    grow = growable_fields(P)
+    chk.floor(rid, len(grow), 3, "realloc-grown buffer fields")
+    n = 0
+    for f in P.all_funcs:
+        if not first_party_logic(P, f):
+            continue
+        # pointer locals derived from a growable buffer
+        derived = []
+        for x in f.walk():
+            name = rhs = node = None
+            if x["k"] == "VarDecl" and x.get("c") and x["c"][0] is not None and x.get("t", "").endswith("*"):
+                name, rhs, node = x["n"], x["c"][0], f.parent(x)
+            elif x["k"] == "BinaryOperator" and x["op"] == "=":
+                l = strip(x["c"][0])
+                if l is not None and l["k"] == "DeclRefExpr" and l.get("dk") == "Var" and (l.get("t") or "").endswith("*"):
+                    name, rhs, node = l["n"], x["c"][1], x
+            if name is None or node is None or "i" not in node:
+                continue
+            y = strip(rhs)
+            # X->F | &X->F[i] | X->F + i | &(X->F)[i]   (not: f(X->F), which yields a different object)
+            for _ in range(4):
+                if y is None:
+                    break
+                if y["k"] == "UnaryOperator" and y["op"] == "&":
+                    y = strip(y["c"][0])
+                elif y["k"] == "ArraySubscriptExpr":
+                    y = strip(y["c"][0])
+                elif y["k"] == "BinaryOperator" and y["op"] in ("+", "-"):
+                    y = strip(y["c"][0])
+                else:
+                    break
+            if y is not None and y["k"] == "MemberExpr" and (y.get("rec"), y["n"]) in grow:
+                derived.append((name, node, key(y["c"][0]), y["n"], y["rec"]))
+        if not derived:
+            continue
+        pos = f.cfg.positions()
+        for name, dnode, base, fld, rec in derived:
+            root = re.match(r"[\(\*&]*([A-Za-z_]\w*)", base)
+            root = root.group(1) if root else base
+            # invalidating statements: calls that receive the base object and may store the field; direct stores
+            inval = []
+            for c in f.calls():
+                cal = c.get("callee")
+                if not cal or c["i"] not in pos:
+                    continue
+                args = [key(a) for a in c["c"][1:]]
+                if not any(a == base or a == root or a == "&" + base for a in args):
+                    continue
+                m = P.mods(f, cal)
+                if cal == "realloc" or (m is None) or (fld in (m or ())):
+                    if cal in ("free", "strlen", "strcmp", "memcpy", "memmove", "strncpy", "memset"):
+                        continue
+                    inval.append(c)
+            for x in f.walk():
+                if x["k"] == "BinaryOperator" and x["op"] == "=" and key(x["c"][0]) == base + "->" + fld and x["i"] in pos:
+                    inval.append(x)
+            if not inval:
+                continue
+            redefs = {}
+            for nm, nd, *_ in derived:
+                if nm == name and nd["i"] in pos:
+                    b, i = pos[nd["i"]]
+                    redefs.setdefault(b, []).append(i)
+            for x in f.walk():
+                if x["k"] == "BinaryOperator" and x["op"] == "=" and key(x["c"][0]) == name and x["i"] in pos:
+                    b, i = pos[x["i"]]
+                    redefs.setdefault(b, []).append(i)
+            uses = []
+            for x in f.walk():
+                if x["k"] == "MemberExpr" and x.get("arrow") and key(x["c"][0]) == name:
+                    uses.append(x)
+                elif x["k"] == "UnaryOperator" and x["op"] == "*" and key(x["c"][0]) == name:
+                    uses.append(x)
+                elif x["k"] == "ArraySubscriptExpr" and key(x["c"][0]) == name:
+                    uses.append(x)
+            use_pos = {}
+            for u_ in uses:
+                if u_["i"] in pos:
+                    b, i = pos[u_["i"]]
+                    use_pos.setdefault(b, []).append((i, u_))
+            n += 1
+            found = None
+            for iv in inval:
+                b0, i0 = pos[iv["i"]]
+                # forward search from just after the invalidating statement
+                st = [(b0, i0 + 1)]
+                seen = set()
+                while st and not found:
+                    b, start = st.pop()
+                    if (b, start > 0) in seen:
+                        continue
+                    seen.add((b, start > 0))
+                    rd = [i for i in redefs.get(b, []) if i >= start]
+                    stop_at = min(rd) if rd else 1 << 30
+                    for i, u_ in sorted(use_pos.get(b, []), key=lambda t: t[0]):
+                        if start <= i < stop_at:
+                            found = (iv, u_)
+                            break
+                    if found or rd:
+                        continue
+                    for s_ in f.cfg.blocks[b].rsucc:
+                        st.append((s_, 0))
+            desc = "%s %s: `%s` points into %s->%s" % (f.where(dnode), f.name, name, base, fld)
+            chk.obligation(rid, desc + (" and is re-derived after every call that may move the buffer" if not found else ""), not found,
+                           sample=False)
+            if found:
+                iv, u_ = found
+                chk.violation(rid, "stale:%s:%s" % (f.name, name), f.where(u_),
+                              "%s dereferences `%s` (derived from %s->%s at line %d) after %s at line %d, which may realloc that "
+                              "buffer: the pointer may refer to freed memory" % (
+                                  f.name, name, base, fld, dnode["l"], iv.get("callee") or "a store to the field", iv["l"]))
+    chk.floor(rid, n, 3, "buffer-derived pointers with a possible reallocation in scope")
